@@ -34,6 +34,8 @@ def run(chk, repo, tier):
     chk.rule("C01.R6", "Verify/PopVerify reject an honestly produced (PK, message, signature) only on paths guarded by a failed "
                        "validation predicate (decode, identity, subgroup, on-curve) — no rejection depends on the message or on "
                        "anything else", 4)
+    chk.rule("C01.R7", "every message can be hashed: hash_to_G2 refuses nothing but over-long tags and is the RFC 9380 function "
+                       "(C10 / C15 obligations re-stated)", 60)
     chk.rule("C01.R5", "the exponent compared with one vanishes identically for honestly produced signatures (formal bilinear domain)", 4)
     chk.not_decided += ["bilinearity of the pairing (C05) — R5 is conditional on it",
                         "that multiply / compression / hash_to_G2 compute what their terms denote (C07, C11, C10)",
@@ -174,6 +176,19 @@ def run(chk, repo, tier):
                 chk.ob("C01.R5", construct, "exponent ≡ 0 for honest (SK, message); one final exponentiation", ok,
                        f"residual exponent {({show(k)[:120]: repr(c) for k, c in e.items()})}, final exponentiations: {nfe}",
                        mv.where)
+    # 'for every byte-string message': Sign hashes the message to the curve — hash_to_G2 must be total and the RFC's function
+    from . import C10
+    from ..report import SubCheck
+    sub = SubCheck()
+    err = None
+    try:
+        C10.run(sub, repo, tier)
+    except AnalysisError as e:
+        err = e
+    for rule, construct, key, ok, detail, where in sub.obs:
+        chk.ob("C01.R7", construct, f"hash_to_G2 [{rule}] {key}", ok, detail, where)
+    if err is not None and all(o[3] for o in sub.obs):
+        raise err
     chk.note_analysed(suites=3, group_order_bits=r.bit_length())
 
 
